@@ -2,6 +2,8 @@ package main
 
 import (
 	"fmt"
+	"os"
+	"runtime/debug"
 	"go/types"
 	"strings"
 
@@ -109,7 +111,11 @@ type SpecErr struct{ Msg string }
 func (e *SpecErr) Error() string { return e.Msg }
 
 func specErr(format string, a ...any) {
-	panic(&SpecErr{fmt.Sprintf(format, a...)})
+	msg := fmt.Sprintf(format, a...)
+	if os.Getenv("GOVC_TRACE") != "" {
+		msg += "\n" + string(debug.Stack())
+	}
+	panic(&SpecErr{msg})
 }
 
 // ---------------------------------------------------------------------------
